@@ -348,7 +348,11 @@ theorem gridRnd_mono (p : ℕ) (hp : 1 ≤ p) : Monotone (gridRnd p) := by
 
 theorem grid_mono (p : ℕ) (hp : 1 ≤ p) : Monotone (grid p hp).rnd := gridRnd_mono p hp
 
-/-- the binary64 significand: `p = 53`, `u = 2⁻⁵³` -/
+/-- the binary64 significand: `p = 53`, `u = 2⁻⁵³`.  NOT bit-for-bit IEEE binary64: ties are resolved UPWARDS (Mathlib's
+`round`, round-half-up, towards `+∞`), not to even, and the exponent range is unbounded (no overflow, underflow or
+subnormals).  It is a genuine round-to-nearest onto the 53-digit binary grid, which is all the standard-model
+theorems use (`|δ| ≤ u`, idempotence, monotonicity, exactness on representable numbers); it differs from IEEE
+only on exact midpoints and outside the normal range. -/
 noncomputable abbrev f64grid : FlModel := grid 53 (by norm_num)
 
 theorem f64grid_u : f64grid.u = 1 / 2 ^ 53 := by
